@@ -108,6 +108,9 @@ def main(pid, argv=None):
             recs.append(dict(label="job", status="unknown", harness=name, reason="job timeout"))
         else:
             harness_errors.append((name, res))
+    if os.environ.get("VERIF_SLOW"):
+        for r in sorted(recs, key=lambda r: -float(r.get("t") or 0))[:int(os.environ["VERIF_SLOW"])]:
+            print(f"  slow {float(r.get('t') or 0):8.1f}s {r['status']:8s} {r['harness']}:{r['label']} @{r.get('cell')}")
     obligations = [r for r in recs if r["status"] in ("proved", "refuted", "unknown", "spurious", "crash")]
     proved = [r for r in recs if r["status"] == "proved"]
     unknown = [r for r in recs if r["status"] in ("unknown", "spurious")]
